@@ -187,8 +187,20 @@ def replay_smtlib_solver(rep):
     return False, {"mode": "API call sequences against the strict reference solver process: nothing found"}
 
 
+def replay_hashcons(rep):
+    from native import bounded_hashcons
+    for seed in (int(rep.get("seed", 0)), 1, 2):
+        r = bounded_hashcons.hashcons_check("quick", seed)
+        if r["violations"]:
+            return True, {"mode": "construction routes, constant arrays and cross-environment copies on the real library",
+                          "failure": r["violations"][0]}
+    return False, {"mode": "construction routes, constant arrays and cross-environment copies: nothing found"}
+
+
 def dispatch(rep):
     kind = rep.get("kind")
+    if kind == "hashcons":
+        return replay_hashcons(rep)
     if kind == "smtlib-solver":
         return replay_smtlib_solver(rep)
     if kind == "roundtrip":
